@@ -227,8 +227,36 @@ def doConeCtor (l : Line) : Option String := do
   let a ← v3? l "ax"
   some (if Cone.ctorRejects (1 / 10 ^ 20 : Rat) d a then "err:value" else "ok")
 
+/-- `fromto dim=2|3 u=… v=… pi=cosπ,sinπ` → `rotation_matrix_from_to(u, v)` as coded, with all
+its branches, on the raw arguments: `ok br=<branch> m=…` / `err:value`. -/
+def doFromTo (l : Line) : Option String := do
+  let tol2 : Rat := 1 / 10 ^ 20
+  match l.nat? "dim" with
+  | some 2 => do
+      let u ← v2? l "u"
+      let v ← v2? l "v"
+      match rotFromToCode2 sqrtApprox tol2 u v with
+      | none => some "err:value"
+      | some m => some s!"ok br=2d m={sm2 m}"
+  | some 3 => do
+      let u ← v3? l "u"
+      let v ← v3? l "v"
+      let (cpi, spi) ← match l.rats? "pi" with
+        | some [c, s] => some (c, s)
+        | _ => none
+      match rotFromToCode3 sqrtApprox tol2 cpi spi u v with
+      | none => some "err:value"
+      | some m =>
+        let un := V3.normalize sqrtApprox u
+        let vn := V3.normalize sqrtApprox v
+        let br := if (V3.cross un vn).normSq < tol2 then
+            (if 0 < V3.dot un vn then "same" else "opposite") else "generic"
+        some s!"ok br={br} m={sm3 m}"
+  | _ => none
+
 def handle (l : Line) : Option String :=
   match l.op with
+  | "fromto" => doFromTo l
   | "pt" => doPt l
   | "shape" => doShape l
   | "getitem2" => doGetitem2 l
